@@ -92,6 +92,8 @@ type histRun struct {
 	txn      int
 	ctx      context.Context
 	canon    []string // canonical request sequence (for the distinctness hash)
+	// setTimeout, if set, replaces the 20 s deadline of TransactionSet calls
+	setTimeout time.Duration
 }
 
 // apiCall runs f recovering a panic of the code under test (decided by C20, inconclusive elsewhere).
@@ -359,7 +361,11 @@ func (r *histRun) set(id string, step []stepIntent, replace *stepIntent, timeout
 			return out
 		}
 	}
-	ctx, cancel := context.WithTimeout(r.ctx, 20*time.Second)
+	to := 20 * time.Second
+	if r.setTimeout > 0 {
+		to = r.setTimeout
+	}
+	ctx, cancel := context.WithTimeout(r.ctx, to)
 	defer cancel()
 	out.panicked = apiCall(r.res, "TransactionSet", func() {
 		out.rsp, out.err = r.ds.TransactionSet(ctx, id, tis, rti, timeout, dry)
